@@ -99,7 +99,7 @@ def run(F, rep, tier, allfacts):
             ok = bitn == "Predicates" and len(vb) == 1 and i in cfg.reachable_from(vb[0]) and i not in cfg._reach_from([0], avoid={vb[0]}) - cfg.reachable_from(vb[0])
             rep.check(ok, "DOM-bits", "Predicates-after-check_predicates_async", where,
                       "async twin: Checks::Predicates must be inserted only downstream of predicates::check_predicates_async")
-        elif "Checked<fuel_tx::Mint> as" in n:
+        elif re.search(r"Checked<fuel_tx::[\w:]*Mint> as", n):
             rep.check(bitn == "Predicates", "DOM-bits", "Mint-idiom:%s" % sn.rsplit("::", 2)[-1], where, "Checked<Mint> may only set the Predicates bit (a mint has no inputs)")
         else:
             rep.bad("DOM-bits", "UNREVIEWED-insert:%s:%s" % (sn, bitn), where, "UNREVIEWED site sets Checks::%s on a Checked transaction: %s" % (bitn, n))
